@@ -1,202 +1,154 @@
 /-
-  C08 helper lemmas, part 7: which histories succeed.  A history runs without an exception exactly when its
-  calls are pairwise compatible (distinct gene locations and names, non-overlapping regions) and every area
-  lies inside the record — a condition that does not depend on the order of the calls.
+  C08 helper lemmas, part 7: histories made of adding calls only — build-order independence and which of them
+  succeed; observing calls return live values.
 -/
 import ASV.Proofs.LookupHist
 namespace ASV.Lookup
 open ASV
 
-/-- two calls that do not exclude each other -/
-def Compatible : Op → Op → Prop
-  | .cds g, .cds h => g.loc ≠ h.loc ∧ g.id ≠ h.id
-  | .area a, .area b => a.kind = .region → b.kind = .region → overlapsWith a.loc b.loc = false
-  | _, _ => True
+/-- `add_cds_feature` / `add_<area>` calls only (no clearing, no observing) -/
+def Op.isAdd : Op → Bool
+  | .cds _ => true
+  | .area _ => true
+  | _ => false
 
-theorem Compatible.symm {x y : Op} (h : Compatible x y) : Compatible y x := by
-  cases x <;> cases y <;> simp only [Compatible] at *
-  · exact ⟨fun e => h.1 e.symm, fun e => h.2 e.symm⟩
-  · intro hb ha
-    have := h ha hb
-    simp only [overlapsWith] at *
-    rw [locationsOverlap_comm]; exact this
+def AddsOnly (ops : List Op) : Prop := ∀ op ∈ ops, op.isAdd = true
 
-/-- the bounds assertions of the `add_<area>` methods -/
-def InBounds (len : Int) : Op → Prop
-  | .cds _ => True
-  | .area a => 0 ≤ a.loc.start ∧ a.loc.end ≤ len
+theorem AddsOnly.perm {ops₁ ops₂ : List Op} (hp : ops₁.Perm ops₂) (h : AddsOnly ops₁) : AddsOnly ops₂ :=
+  fun op hop => h op (hp.mem_iff.2 hop)
 
-theorem addCds_eq {r : Rec} {g : Gene} (hk : keyExists g.loc = true)
-    (h1 : ∀ f ∈ r.genes, f.loc ≠ g.loc) (h2 : ∀ f ∈ r.genes, f.id ≠ g.id) :
-    addCds r g = .ok (linkCdsToParent { r with genes := ins r.genes g } g) := by
-  have e1 : (r.genes.any fun f => f.loc == g.loc) = false := by
-    rw [List.any_eq_false]; intro f hf; simpa using h1 f hf
-  have e2 : (r.genes.any fun f => f.id == g.id) = false := by
-    rw [List.any_eq_false]; intro f hf; simpa using h2 f hf
-  simp only [Lookup.addCds, hk, e1, e2, Bool.not_true, Bool.false_eq_true, if_false, pure, Except.pure, ins]
+/-- what is alive after adding calls only: everything that was added -/
+theorem live_adds : ∀ (ops : List Op) (L0 : Live), AddsOnly ops →
+    (∀ g, g ∈ (ops.foldl Live.step L0).genes ↔ g ∈ L0.genes ∨ Op.cds g ∈ ops) ∧
+    (∀ a, a ∈ (ops.foldl Live.step L0).regions ↔ a ∈ L0.regions ∨ (Op.area a ∈ ops ∧ a.kind = .region)) ∧
+    (∀ a, a ∈ (ops.foldl Live.step L0).areas ↔ a ∈ L0.areas ∨ Op.area a ∈ ops)
+  | [], L0, _ => by simp
+  | op :: ops, L0, h => by
+    have ih := live_adds ops (L0.step op) (fun o ho => h o (by simp [ho]))
+    have hop := h op (by simp)
+    simp only [List.foldl_cons]
+    obtain ⟨i1, i2, i3⟩ := ih
+    cases op with
+    | cds g =>
+      refine ⟨fun x => ?_, fun a => ?_, fun a => ?_⟩
+      · rw [i1]; simp [Live.step]; grind
+      · rw [i2]; simp [Live.step]
+      · rw [i3]; simp [Live.step, Live.areas]
+    | area b =>
+      refine ⟨fun x => ?_, fun a => ?_, fun a => ?_⟩
+      · rw [i1]; have : (L0.step (.area b)).genes = L0.genes := by simp only [Live.step]; cases b.kind <;> rfl
+        rw [this]; simp
+      · rw [i2]
+        have : a ∈ (L0.step (.area b)).regions ↔ a ∈ L0.regions ∨ (a = b ∧ b.kind = .region) := by
+          simp only [Live.step]; cases hk : b.kind <;> simp
+        rw [this]; simp only [List.mem_cons, Op.area.injEq]
+        constructor
+        · rintro ((h1 | ⟨rfl, h1⟩) | ⟨h1, h2⟩)
+          · exact Or.inl h1
+          · exact Or.inr ⟨Or.inl rfl, h1⟩
+          · exact Or.inr ⟨Or.inr h1, h2⟩
+        · rintro (h1 | ⟨rfl | h1, h2⟩)
+          · exact Or.inl (Or.inl h1)
+          · exact Or.inl (Or.inr ⟨rfl, h2⟩)
+          · exact Or.inr ⟨h1, h2⟩
+      · rw [i3, Live.step_area_areas]; simp only [List.mem_cons, Op.area.injEq]; grind
+    | _ => simp [Op.isAdd] at hop
 
-theorem addCds_guards {r r' : Rec} {g : Gene} (h : addCds r g = .ok r') :
-    (∀ f ∈ r.genes, f.loc ≠ g.loc) ∧ (∀ f ∈ r.genes, f.id ≠ g.id) := by
-  refine ⟨?_, (addCds_ok h).1⟩
-  unfold Lookup.addCds at h
-  cases h1 : keyExists g.loc with
-  | false => simp [h1, throw, throwThe, MonadExceptOf.throw] at h
-  | true =>
-    simp only [h1, Bool.not_true, Bool.false_eq_true, if_false] at h
-    cases h2 : (r.genes.any fun f => f.loc == g.loc) with
-    | true => simp [h2, throw, throwThe, MonadExceptOf.throw] at h
-    | false =>
-      rw [List.any_eq_false] at h2
-      intro f hf; simpa using h2 f hf
+theorem opsAreas_adds {ops : List Op} (h : AddsOnly ops) (a : AreaT) : a ∈ opsAreas ops ↔ Op.area a ∈ ops := by
+  simp only [opsAreas, List.mem_flatMap]
+  constructor
+  · rintro ⟨op, hop, ha⟩
+    have := h op hop
+    cases op <;> simp [Op.isAdd, opAreas] at this ha
+    subst ha; exact hop
+  · intro ha; exact ⟨.area a, ha, by simp [opAreas]⟩
 
-theorem addArea_eq {r : Rec} {a : AreaT} (h1 : 0 ≤ a.loc.start) (h2 : a.loc.end ≤ r.len)
-    (h3 : a.kind = .region → ∀ x ∈ r.regions, overlapsWith a.loc x.loc = false) :
-    addArea r a = addFound (reg r a) a := by
-  have e1 : ¬ a.loc.start < 0 := by omega
-  have e2 : ¬ a.loc.end > r.len := by omega
-  unfold addArea reg
-  simp only [e1, e2, if_false]
-  cases hk : a.kind with
-  | proto => rfl
-  | cand => rfl
-  | sub => rfl
-  | region =>
-    have : (r.regions.any fun x => overlapsWith a.loc x.loc) = false := by
-      rw [List.any_eq_false]; intro x hx; simp [h3 hk x hx]
-    simp only [this, Bool.false_eq_true, if_false]
+/-- the state after adding calls only, in terms of the calls -/
+theorem adds_state {len : Int} {ops : List Op} {r : Rec} (hadd : AddsOnly ops) (hok : ∀ op ∈ ops, OpOK op)
+    (hrun : run len ops = .ok r) :
+    (∀ g, g ∈ r.genes ↔ Op.cds g ∈ ops) ∧ (∀ a, a ∈ r.regions ↔ (Op.area a ∈ ops ∧ a.kind = .region)) ∧
+    (∀ a, a ∈ registered r ↔ Op.area a ∈ ops) := by
+  have inv := (run_inv hok hrun).core
+  obtain ⟨l1, l2, l3⟩ := live_adds ops {} hadd
+  refine ⟨fun g => ?_, fun a => ?_, fun a => ?_⟩
+  · rw [inv.genesLive]; simpa [liveAfter] using l1 g
+  · rw [inv.regionsEq]; simpa [liveAfter] using l2 a
+  · rw [registered_eq_live inv]; simpa [liveAfter, Live.areas] using l3 a
 
-theorem addArea_bounds {r r' : Rec} {a : AreaT} (h : addArea r a = .ok r') : 0 ≤ a.loc.start ∧ a.loc.end ≤ r.len := by
-  unfold addArea at h
-  by_cases h1 : a.loc.start < 0
-  · simp [h1, throw, throwThe, MonadExceptOf.throw] at h
-  · by_cases h2 : a.loc.end > r.len
-    · simp [h1, h2, throw, throwThe, MonadExceptOf.throw] at h
-    · omega
+/-- after adding calls only the three relations are exactly "linked through what was added" -/
+theorem adds_relations {len : Int} {ops : List Op} {r : Rec} (hadd : AddsOnly ops) (hok : ∀ op ∈ ops, OpOK op)
+    (hrun : run len ops = .ok r) :
+    (∀ x, x ∈ r.members ↔ ∃ g ∈ r.genes, ∃ d, Linked (registered r) g d ∧ x = (d.id, g.id)) ∧
+    (∀ x, x ∈ r.defs ↔ ∃ g ∈ r.genes, ∃ d, Linked (registered r) g d ∧ defines g d = true ∧ x = (d.id, g.id)) ∧
+    (∀ x, x ∈ r.sections ↔ ∃ g ∈ r.genes, ∃ d s, LinkedS (registered r) g d s ∧ x = ((d.id, s), g.id)) := by
+  have inv := (run_inv hok hrun).core
+  obtain ⟨_, _, s3⟩ := adds_state hadd hok hrun
+  have hback : ∀ a ∈ opsAreas ops, a ∈ registered r := fun a ha => (s3 a).2 ((opsAreas_adds hadd a).1 ha)
+  refine ⟨fun x => ⟨fun hx => ?_, ?_⟩, fun x => ⟨fun hx => ?_, ?_⟩, fun x => ⟨fun hx => ?_, ?_⟩⟩
+  · obtain ⟨g, hg, d, hl, e⟩ := inv.membersSound x hx; exact ⟨g, hg, d, hl.mono hback, e⟩
+  · rintro ⟨g, hg, d, hl, rfl⟩; exact inv.membersComplete g hg d hl
+  · obtain ⟨g, hg, d, hl, hd, e⟩ := inv.defsSound x hx; exact ⟨g, hg, d, hl.mono hback, hd, e⟩
+  · rintro ⟨g, hg, d, hl, hd, rfl⟩; exact inv.defsComplete g hg d hl hd
+  · obtain ⟨g, hg, d, s, hl, e⟩ := inv.sectionsSound x hx; exact ⟨g, hg, d, s, hl.mono hback, e⟩
+  · rintro ⟨g, hg, d, s, hl, rfl⟩; exact inv.sectionsComplete g hg d s hl
 
-/-- under the invariant, adding an area that passes the guards cannot raise, and nothing changes the length -/
-theorem addFound_ok {seen : List Op} {r : Rec} (inv : Inv seen r) (a : AreaT) (ha : QueryOK a.loc) :
-    ∃ r', addFound (reg r a) a = .ok r' ∧ r'.len = r.len := by
-  obtain ⟨f1, f2, _⟩ := reg_frame r a
-  have hL : ∀ g ∈ within r.genes a.loc false, containedBy g.loc a.loc = true := by
-    intro g hg
-    obtain ⟨hg', hk⟩ := (mem_within inv.sorted inv.ok a.loc false ha g).1 hg
-    rw [containedBy_eq_spec (gene_le (inv.ok g hg'))]; simpa [specKeeps] using hk
-  obtain ⟨r', hrun, eff⟩ := addAll_eff a (within r.genes a.loc false) (reg r a) hL
-  exact ⟨r', by unfold addFound; rw [f2]; exact hrun, by rw [eff.len, f1]⟩
+theorem LinkedS.congr {l₁ l₂ : List AreaT} (h : ∀ a, a ∈ l₁ ↔ a ∈ l₂) (g : Gene) (d : AreaT) (s : Section) :
+    LinkedS l₁ g d s ↔ LinkedS l₂ g d s := by
+  simp only [LinkedS, h]
 
-theorem step_len {seen : List Op} {r r' : Rec} (inv : Inv seen r) {op : Op} (hop : OpOK op)
-    (h : step r op = .ok r') : r'.len = r.len := by
-  cases op with
-  | cds g =>
-    obtain ⟨_, e⟩ := addCds_ok h
-    rw [e, (linkCdsToParent_eff _ g).len]
-  | area a =>
-    obtain ⟨_, hf⟩ := addArea_ok h
-    obtain ⟨r'', h1, h2⟩ := addFound_ok inv a hop
-    rw [h1] at hf; injection hf with hf; rw [← hf]; exact h2
+/-- two orderings of the same adding calls end with the same genes, the same regions, the same
+    area ↔ gene relation (with sections), the same defining genes -/
+theorem order_independent_sets {len : Int} {ops₁ ops₂ : List Op} {r₁ r₂ : Rec} (hp : ops₁.Perm ops₂)
+    (hadd : AddsOnly ops₁) (hok : ∀ op ∈ ops₁, OpOK op) (h1 : run len ops₁ = .ok r₁) (h2 : run len ops₂ = .ok r₂) :
+    (∀ g, g ∈ r₁.genes ↔ g ∈ r₂.genes) ∧ (∀ a, a ∈ r₁.regions ↔ a ∈ r₂.regions)
+    ∧ (∀ x, x ∈ r₁.members ↔ x ∈ r₂.members) ∧ (∀ x, x ∈ r₁.defs ↔ x ∈ r₂.defs)
+    ∧ (∀ x, x ∈ r₁.sections ↔ x ∈ r₂.sections) := by
+  have hok2 : ∀ op ∈ ops₂, OpOK op := fun op hop => hok op (hp.mem_iff.2 hop)
+  obtain ⟨a1, a2, a3⟩ := adds_state hadd hok h1
+  obtain ⟨b1, b2, b3⟩ := adds_state (hadd.perm hp) hok2 h2
+  obtain ⟨m1, d1, s1⟩ := adds_relations hadd hok h1
+  obtain ⟨m2, d2, s2⟩ := adds_relations (hadd.perm hp) hok2 h2
+  have hg : ∀ g, g ∈ r₁.genes ↔ g ∈ r₂.genes := fun g => by rw [a1, b1, hp.mem_iff]
+  have hr : ∀ a, a ∈ registered r₁ ↔ a ∈ registered r₂ := fun a => by rw [a3, b3, hp.mem_iff]
+  have hl := fun g d s => LinkedS.congr hr g d s
+  refine ⟨hg, fun a => by rw [a2, b2, hp.mem_iff], fun x => ?_, fun x => ?_, fun x => ?_⟩
+  · rw [m1, m2]; simp only [hg, Linked, hl]
+  · rw [d1, d2]; simp only [hg, Linked, hl]
+  · rw [s1, s2]; simp only [hg, hl]
 
-/-- a call succeeds exactly when it is compatible with every earlier call and inside the record -/
-theorem step_ok_iff {seen : List Op} {r : Rec} (inv : Inv seen r) (op : Op) (hop : OpOK op) :
-    (∃ r', step r op = .ok r') ↔ (∀ o ∈ seen, Compatible o op) ∧ InBounds r.len op := by
-  cases op with
-  | cds g =>
-    simp only [step, InBounds, and_true]
-    constructor
-    · rintro ⟨r', h⟩
-      obtain ⟨h1, h2⟩ := addCds_guards h
-      intro o ho
-      cases o with
-      | cds g' =>
-        have hg' := (inv.genesSeen g').2 ho
-        exact ⟨h1 g' hg', h2 g' hg'⟩
-      | area a => trivial
-    · intro h
-      have hk : keyExists g.loc = true := by
-        obtain ⟨k, hk⟩ := hop.2.2
-        simp [keyExists, hk]
-      exact ⟨_, addCds_eq hk (fun f hf => (h _ ((inv.genesSeen f).1 hf)).1)
-        (fun f hf => (h _ ((inv.genesSeen f).1 hf)).2)⟩
-  | area a =>
-    simp only [step, InBounds]
-    constructor
-    · rintro ⟨r', h⟩
-      refine ⟨?_, addArea_bounds h⟩
-      obtain ⟨hd, _⟩ := addArea_ok h
-      intro o ho
-      cases o with
-      | cds g' => trivial
-      | area b =>
-        intro hb hka
-        have := hd hka b ((inv.regionsSeen b).2 ⟨ho, hb⟩)
-        simp only [overlapsWith] at *
-        rw [locationsOverlap_comm]; exact this
-    · rintro ⟨hc, h1, h2⟩
-      have h3 : a.kind = .region → ∀ x ∈ r.regions, overlapsWith a.loc x.loc = false := by
-        intro hk x hx
-        obtain ⟨hs, hkx⟩ := (inv.regionsSeen x).1 hx
-        have := hc _ hs hkx hk
-        simp only [overlapsWith] at *
-        rw [locationsOverlap_comm]; exact this
-      obtain ⟨r', hr', _⟩ := addFound_ok inv a hop
-      exact ⟨r', by rw [addArea_eq h1 h2 h3]; exact hr'⟩
+/-- … and every gene points to the same region -/
+theorem order_independent_region {len : Int} {ops₁ ops₂ : List Op} {r₁ r₂ : Rec} (hp : ops₁.Perm ops₂)
+    (hadd : AddsOnly ops₁) (hok : ∀ op ∈ ops₁, OpOK op) (h1 : run len ops₁ = .ok r₁) (h2 : run len ops₂ = .ok r₂) :
+    ∀ g ∈ r₁.genes, r₁.regionOfGene g.id = r₂.regionOfGene g.id := by
+  have hok2 : ∀ op ∈ ops₂, OpOK op := fun op hop => hok op (hp.mem_iff.2 hop)
+  obtain ⟨hg, hr, _⟩ := order_independent_sets hp hadd hok h1 h2
+  intro g hg1
+  have hg2 := (hg g).1 hg1
+  obtain ⟨a1, n1⟩ := region_of_gene h1 hok hg1
+  obtain ⟨a2, n2⟩ := region_of_gene h2 hok2 hg2
+  by_cases hex : ∃ a ∈ r₁.regions, containedBy g.loc a.loc = true
+  · obtain ⟨a, ha, hc⟩ := hex
+    rw [a1 a ha hc, a2 a ((hr a).1 ha) hc]
+  · have hnone : ∀ a ∈ r₁.regions, containedBy g.loc a.loc = false := by
+      intro a ha
+      cases hc : containedBy g.loc a.loc
+      · rfl
+      · exact absurd ⟨a, ha, hc⟩ hex
+    rw [n1 hnone, n2 (fun a ha => hnone a ((hr a).2 ha))]
 
-/-- the calls of a history that runs through, and those of any history that would -/
-def Valid (len : Int) (ops : List Op) : Prop := ops.Pairwise Compatible ∧ ∀ op ∈ ops, InBounds len op
+/-! ### observing calls return the live values -/
 
-theorem foldlM_ok_iff (len : Int) : ∀ (ops seen : List Op) (r0 : Rec), Inv seen r0 → r0.len = len →
-    (∀ op ∈ ops, OpOK op) →
-    ((∃ r, ops.foldlM step r0 = .ok r) ↔
-      (∀ o ∈ seen, ∀ p ∈ ops, Compatible o p) ∧ ops.Pairwise Compatible ∧ ∀ op ∈ ops, InBounds len op)
-  | [], seen, r0, _, _, _ => by simp [pure, Except.pure]
-  | op :: ops, seen, r0, inv, hlen, hok => by
-    have hop := hok op (by simp)
-    have hstep := step_ok_iff inv op hop
-    rw [hlen] at hstep
-    simp only [List.foldlM_cons, bind, Except.bind]
-    constructor
-    · rintro ⟨r, hr⟩
-      cases hs : step r0 op with
-      | error e => rw [hs] at hr; cases hr
-      | ok r1 =>
-        rw [hs] at hr
-        obtain ⟨hc, hb⟩ := hstep.1 ⟨r1, hs⟩
-        have inv1 := inv.step op hop hs
-        have hl1 : r1.len = len := by rw [step_len inv hop hs, hlen]
-        obtain ⟨h1, h2, h3⟩ := (foldlM_ok_iff len ops (seen ++ [op]) r1 inv1 hl1
-          (fun o ho => hok o (by simp [ho]))).1 ⟨r, hr⟩
-        refine ⟨?_, ?_, ?_⟩
-        · intro o ho p hp
-          rcases List.mem_cons.1 hp with rfl | hp'
-          · exact hc o ho
-          · exact h1 o (by simp [ho]) p hp'
-        · rw [List.pairwise_cons]
-          exact ⟨fun p hp => h1 op (by simp) p hp, h2⟩
-        · intro p hp
-          rcases List.mem_cons.1 hp with rfl | hp'
-          · exact hb
-          · exact h3 p hp'
-    · rintro ⟨h1, h2, h3⟩
-      obtain ⟨h2a, h2b⟩ := List.pairwise_cons.1 h2
-      obtain ⟨r1, hs⟩ := hstep.2 ⟨fun o ho => h1 o ho op (by simp), h3 op (by simp)⟩
-      have inv1 := inv.step op hop hs
-      have hl1 : r1.len = len := by rw [step_len inv hop hs, hlen]
-      obtain ⟨r, hr⟩ := (foldlM_ok_iff len ops (seen ++ [op]) r1 inv1 hl1
-        (fun o ho => hok o (by simp [ho]))).2
-        ⟨by
-          intro o ho p hp
-          rcases List.mem_append.1 ho with ho' | ho'
-          · exact h1 o ho' p (by simp [hp])
-          · simp only [List.mem_singleton] at ho'; subst ho'; exact h2a p hp,
-         h2b, fun p hp => h3 p (by simp [hp])⟩
-      exact ⟨r, by rw [hs]; exact hr⟩
-
-/-- a history of well-formed calls runs through iff it is valid -/
-theorem run_ok_iff {len : Int} {ops : List Op} (hok : ∀ op ∈ ops, OpOK op) :
-    (∃ r, run len ops = .ok r) ↔ Valid len ops := by
-  have := foldlM_ok_iff len ops [] { len := len } (Inv.init len) rfl hok
-  simpa [run, Valid] using this
-
-theorem Valid.perm {len : Int} {ops₁ ops₂ : List Op} (hp : ops₁.Perm ops₂) (h : Valid len ops₁) : Valid len ops₂ :=
-  ⟨(hp.pairwise_iff (fun h => Compatible.symm h)).1 h.1, fun op hop => h.2 op (hp.mem_iff.2 hop)⟩
+theorem run_snoc {len : Int} {ops : List Op} {op : Op} {r' : Rec} (h : run len (ops ++ [op]) = .ok r') :
+    ∃ r, run len ops = .ok r ∧ step r op = .ok r' := by
+  simp only [run, List.foldlM_append, List.foldlM_cons, List.foldlM_nil, bind, Except.bind] at h
+  cases hr : List.foldlM step { len := len } ops with
+  | error e => rw [hr] at h; cases h
+  | ok r =>
+    rw [hr] at h
+    refine ⟨r, hr, ?_⟩
+    simp only [] at h
+    cases hs : step r op with
+    | error e => rw [hs] at h; cases h
+    | ok r1 => rw [hs] at h; simpa [pure, Except.pure] using h
 
 end ASV.Lookup
